@@ -26,6 +26,7 @@ EXPLANATION = (
     ' (DEFER-RECORDED replay) a check that is postponed because an operand is still unknown - which is what erasing an annotation causes - is replayed by check_constraints as the same checker with the operands in the same roles; (ORDER-PRESERVED) type variables and parameters keep their positions through name resolution.'
     ' (INFERENCE catch-all) a case split on the type of an expression whose `_` arm is an error has an arm for Unknown, or the unknown case is settled (unified with a type made on the spot) in front of it; (NO-LAYOUT-FLOW, shared with C14) nothing of a span reaches the emitted bytes - an annotation is text that moves lines and columns (the line in the `<!>` message: known finding).'
     ' (INFERENCE settled-shape) the function type made for an unknown callee passes the purity guard of the arm below it; (COPY parts, shared) instantiation treats settled and unknown nodes alike.'
+    ' (ANNOTATION-PERMISSIVE names-decide-nothing) two blob types are unified structurally, like the Field constraint an unannotated use records; (no-error-of-its-own) type_from_function fails only when resolving or unifying an annotation fails.'
 )
 UNDECIDED = "completeness of inference in general (erasing a correct annotation keeps the program accepted): only the structural necessary conditions INFERENCE, ANNOTATION-INERT (checker) and the return-type probe are decided."
 
